@@ -290,6 +290,18 @@ def main_check(prop, tier, seed, cases=None, wall=None, workers=None, out=sys.st
         for it in retry[5:]:
             harness.append({'ok': False, 'kind': 'HARNESS-TIMEOUT', 'detail': 'too many timeouts', 'item': it})
 
+    # 2b. determinism re-check: the first cases again, in this process tree with one worker; event-log digests must agree
+    nre = 4 if tier == 'quick' else 24
+    redo = runner.run_cases('sim.engine', 'run_case', items[:nre], workers=1)
+    first = {idx: tr for idx, tr in agg.traces}
+    det_bad = 0
+    for r in redo:
+        if r and r['ok'] and r['value']['idx'] in first and first[r['value']['idx']] != r['value']['trace']:
+            det_bad += 1
+    agg.determinism = {'rechecked': len([r for r in redo if r and r['ok']]), 'mismatches': det_bad}
+    if det_bad:
+        harness.append({'ok': False, 'kind': 'HARNESS-NONDETERMINISM', 'detail': '%d of %d re-executed cases gave another event log' % (det_bad, nre)})
+
     # 3. classify violations
     groups = {}
     for res in agg.with_violations:
@@ -445,6 +457,7 @@ class Aggregate:
             'components': getattr(o, 'COMPONENTS', COMPONENTS),
             'seams_live': self.seams,
             'known_findings_hit': known_hits,
+            'determinism': getattr(self, 'determinism', None),
             'harness_problems': n_harness,
             'exhaustive': False,
         }
